@@ -3,6 +3,7 @@ from vmon import gen, invalid, prog
 from vmon.atomic import AtomicMonitor
 
 LEVEL = "fault_enumeration"
+SOAK = True  # thorough tier also runs the repository's own tests with this monitor attached (vmon/pytest_plugin.py)
 RULE = ("online-generated valid histories; at every position a sample of the invalid-call catalogue applicable in "
         "that state is injected (plus organically failing calls: over-long sequences, refused targets ...); after every "
         "raising or read-only call the full snapshot must equal the one before; at checkpoints build / switch_register "
